@@ -1812,6 +1812,10 @@ Octagonal_Shape<T>::max_min(const Linear_Expression& expr,
       else {
         add_mul_assign_r(d, coeff_expr, m_i[j], ROUND_UP);
       }
+      if (is_plus_infinity(d)) {
+        // The computation overflowed: no finite bound is known.
+        return false;
+      }
       numer_denom(d, ext_n, ext_d);
       if (!maximize) {
         neg_assign(ext_n);
